@@ -116,6 +116,10 @@ theorem iter_reach {multi : Bool} {s : St} (hr : Reach multi s) : s.iter = abs s
 theorem iter_run (multi : Bool) (ops : List Op) : (run multi ops).iter = abs (run multi ops) :=
   iter_reach (reach_run multi ops)
 
+/-- `size()` is the number of entries iteration yields -/
+theorem size_reach {multi : Bool} {s : St} (hr : Reach multi s) : s.size = (abs s).length :=
+  (abs_length s (invs_reach hr).1).symm
+
 /-- Map iterates strictly ascending keys -/
 theorem sorted_map {s : St} (hr : Reach false s) : (abs s).Pairwise (fun a b => a.1 < b.1) := by
   obtain ⟨h, _, hm⟩ := invs_reach hr
@@ -311,6 +315,21 @@ theorem multi_insert_stable (ops : List Op) (k v : Int) :
       rcases List.mem_cons.mp hx with hx | hx
       · rw [hx]; omega
       · exact e3 x hx
+
+/-
+  OPEN (not proved; stated here so that nobody reads more into the theorems above):
+
+  * Keys are `Int`.  The generalisation "for every key type whose `<`/`>` form a strict total
+    order" (DESIGN.md C01/X) is not stated: the model is monomorphic.
+       theorem find_cost_log_any_order {K} [LinearOrder K] … : (analogue of find_cost_log)
+  * Key comparison counts of insert / hinted insert / remove(key) / count are computed by the
+    model (`Out.cmps`) and compared with the real code on every run, but no theorem bounds them
+    (the property only speaks about `find`).
+       theorem insert_cost_log … : (s.insertRoot k v 0).2.cmps ≤ 2 * H     -- not proved
+  * The free-list discipline (LIFO reuse of item addresses, blocks of 4) is modelled (`St.alloc`,
+    invariant: ids distinct and disjoint from the free list) but addresses are not observable
+    through the public API and are not compared by the correspondence run.
+-/
 
 /-! ### non-vacuity: concrete reachable states -/
 
